@@ -63,6 +63,8 @@ pub struct Case {
     pub date_typed: bool,
     /// Kotlin: no package configured at all (a supported setting: the backend then writes no package header; Scala refuses it)
     pub empty_package: bool,
+    /// TypeScript: the first field carries `#[typeshare(typescript(readonly))]`: a modifier written in front of the key
+    pub readonly_member: bool,
 }
 
 pub fn gen(ch: &mut Chooser, max_fields: usize) -> Case {
@@ -110,7 +112,11 @@ pub fn gen(ch: &mut Chooser, max_fields: usize) -> Case {
         fields[0].ty = Ty::user("DateTime");
     }
     let empty_package = !prefixed && lang == Lang::Kotlin && ch.flag("no_package_configured");
-    Case { in_variant, own_rule, enum_rule, fields, style, lang, prefixed, extra_attrs, variant_renamed, date_typed, empty_package }
+    let readonly_member = lang == Lang::TypeScript && ch.flag("first_field_is_readonly");
+    if readonly_member {
+        fields[0].ts_args = vec!["typescript(readonly)".into()];
+    }
+    Case { in_variant, own_rule, enum_rule, fields, style, lang, prefixed, extra_attrs, variant_renamed, date_typed, empty_package, readonly_member }
 }
 
 pub fn program(c: &Case) -> File {
@@ -352,7 +358,7 @@ pub fn run(args: &[String]) -> i32 {
             let rule = *ch.pick("rename_all", &[None, Some("kebab-case"), Some("camelCase"), Some("SCREAMING_SNAKE_CASE")]);
             let lang = *ch.pick("lang", &ALL_LANGS);
             let prefixed = ch.flag("cfg");
-            Case { in_variant, own_rule: rule, enum_rule: None, fields, style: AttrStyle::Separate, lang, prefixed, extra_attrs: false, variant_renamed: false, date_typed: false, empty_package: false }
+            Case { in_variant, own_rule: rule, enum_rule: None, fields, style: AttrStyle::Separate, lang, prefixed, extra_attrs: false, variant_renamed: false, date_typed: false, empty_package: false, readonly_member: false }
         };
         let (accs, stats) = explore(
             |ch| {
